@@ -1,5 +1,6 @@
 """Driver (fresh interpreter, emitted tree on sys.path) for spec/Mixins.tla (C17).
 
+For every service of the emitted library named in the payload:
 1. lists which of the ten mixin client methods exist on the emitted sync and asyncio clients;
 2. calls every one that exists on the sync gRPC client, the asyncio gRPC client and the sync REST client
    against the loopback servers and records what the SERVER saw:
@@ -9,10 +10,10 @@
      REST: verb, raw path, where the non-path request fields travelled (body / query), body present or not;
    and what the caller got back (descriptor full name of the returned object, equality with the server's reply).
 
-payload: {module, service, service_snake, kinds: [grpc|grpc_asyncio|rest ..],
+payload: {module, services: [{service, service_snake}..], kinds: [grpc|grpc_asyncio|rest ..],
           rpcs: [{rpc, snake, reqtype, resptype, field, value}]}          (table printed by the specification)
-result : {present: {sync: [snake..], asyncio: [snake..] | null},
-          calls: [{rpc, kind, raised, sent: [{...}], ret_type, ret_same}]}
+result : {services: {<service>: {present: {sync: [snake..], asyncio: [snake..] | null},
+                                 calls: [{rpc, kind, raised, sent: [{...}], ret_type, ret_same}]}}}
 The driver holds no expectation: which calls must look how is decided in TLA+.
 """
 import asyncio
@@ -146,66 +147,74 @@ def project_return(r, res):
     return d.full_name, same
 
 
+def drive_service(pl, w, srv, hsrv, service, service_snake):
+    """presence + calls for the clients of one service of the emitted library."""
+    calls = []
+    present = dict(sync=None, asyncio=None)
+    names = [r['snake'] for r in pl['rpcs']]
+    mod, C = rt.import_client(pl['module'], service, False)
+    present['sync'] = [n for n in names if callable(getattr(C, n, None))]
+    try:
+        _, AC = rt.import_client(pl['module'], service, True)
+        present['asyncio'] = [n for n in names if callable(getattr(AC, n, None))]
+    except AttributeError:
+        AC = None
+    chlog = []
+
+    def record(r, kind, fn):
+        w.cur, w.sent = r, []
+        rec = dict(rpc=r['rpc'], kind=kind, raised=None, ret_type=None, ret_same=False)
+        try:
+            res = fn(build_request(r))
+            rec['ret_type'], rec['ret_same'] = project_return(r, res)
+        except Exception as e:
+            rec['raised'] = f'{type(e).__name__}: {str(e)[:300]}'
+        rec['sent'] = w.sent
+        calls.append(rec)
+
+    if 'grpc' in pl['kinds']:
+        _, client, ch = rt.grpc_client(pl['module'], service_snake, service, srv.target, chlog)
+        for r in pl['rpcs']:
+            if r['snake'] in present['sync']:
+                record(r, 'grpc', lambda req, r=r: getattr(client, r['snake'])(request=req))
+        ch.close()
+    if 'rest' in pl['kinds']:
+        _, rclient = rt.rest_client(pl['module'], service_snake, service, hsrv.hostport)
+        for r in pl['rpcs']:
+            if r['snake'] in present['sync']:
+                record(r, 'rest', lambda req, r=r: getattr(rclient, r['snake'])(request=req))
+    if 'grpc_asyncio' in pl['kinds'] and AC is not None:
+        async def amain():
+            _, aclient, ach = rt.grpc_client(pl['module'], service_snake, service, srv.target, chlog, asyncio_=True)
+            for r in pl['rpcs']:
+                if r['snake'] not in present['asyncio']:
+                    continue
+                w.cur, w.sent = r, []
+                rec = dict(rpc=r['rpc'], kind='grpc_asyncio', raised=None, ret_type=None, ret_same=False)
+                try:
+                    res = await getattr(aclient, r['snake'])(request=build_request(r))
+                    rec['ret_type'], rec['ret_same'] = project_return(r, res)
+                except Exception as e:
+                    rec['raised'] = f'{type(e).__name__}: {str(e)[:300]}'
+                rec['sent'] = w.sent
+                calls.append(rec)
+            await ach.close()
+        asyncio.run(amain())
+    return dict(present=present, calls=calls)
+
+
 def main():
     pl = rt.read_payload()
     w = World(pl)
     srv = lg.Server(w.respond)
     hsrv = lh.Server(w.respond_http)
-    calls = []
-    present = dict(sync=None, asyncio=None)
-    names = [r['snake'] for r in pl['rpcs']]
+    out = {}
     try:
-        mod, C = rt.import_client(pl['module'], pl['service'], False)
-        present['sync'] = [n for n in names if callable(getattr(C, n, None))]
-        try:
-            _, AC = rt.import_client(pl['module'], pl['service'], True)
-            present['asyncio'] = [n for n in names if callable(getattr(AC, n, None))]
-        except AttributeError:
-            AC = None
-        chlog = []
-
-        def record(r, kind, fn):
-            w.cur, w.sent = r, []
-            rec = dict(rpc=r['rpc'], kind=kind, raised=None, ret_type=None, ret_same=False)
-            try:
-                res = fn(build_request(r))
-                rec['ret_type'], rec['ret_same'] = project_return(r, res)
-            except Exception as e:
-                rec['raised'] = f'{type(e).__name__}: {str(e)[:300]}'
-            rec['sent'] = w.sent
-            calls.append(rec)
-
-        if 'grpc' in pl['kinds']:
-            _, client, ch = rt.grpc_client(pl['module'], pl['service_snake'], pl['service'], srv.target, chlog)
-            for r in pl['rpcs']:
-                if r['snake'] in present['sync']:
-                    record(r, 'grpc', lambda req, r=r: getattr(client, r['snake'])(request=req))
-            ch.close()
-        if 'rest' in pl['kinds']:
-            _, rclient = rt.rest_client(pl['module'], pl['service_snake'], pl['service'], hsrv.hostport)
-            for r in pl['rpcs']:
-                if r['snake'] in present['sync']:
-                    record(r, 'rest', lambda req, r=r: getattr(rclient, r['snake'])(request=req))
-        if 'grpc_asyncio' in pl['kinds'] and AC is not None:
-            async def amain():
-                _, aclient, ach = rt.grpc_client(pl['module'], pl['service_snake'], pl['service'], srv.target, chlog, asyncio_=True)
-                for r in pl['rpcs']:
-                    if r['snake'] not in present['asyncio']:
-                        continue
-                    w.cur, w.sent = r, []
-                    rec = dict(rpc=r['rpc'], kind='grpc_asyncio', raised=None, ret_type=None, ret_same=False)
-                    try:
-                        res = await getattr(aclient, r['snake'])(request=build_request(r))
-                        rec['ret_type'], rec['ret_same'] = project_return(r, res)
-                    except Exception as e:
-                        rec['raised'] = f'{type(e).__name__}: {str(e)[:300]}'
-                    rec['sent'] = w.sent
-                    calls.append(rec)
-                await ach.close()
-            asyncio.run(amain())
+        for sv in pl['services']:
+            out[sv['service']] = drive_service(pl, w, srv, hsrv, sv['service'], sv['service_snake'])
     finally:
         srv.stop(); hsrv.stop()
-    rt.emit(dict(present=present, calls=calls))
+    rt.emit(dict(services=out))
 
 
 if __name__ == '__main__':
